@@ -49,6 +49,8 @@ class Check:
                          "classes": sum(len(m.classes) for m in self.repo.modules.values()),
                          "functions": sum(1 for _ in self.repo.all_funcs())}
         self.extra = {}
+        self.errors = []          # AnalysisError raised by individual rule functions (guarded)
+        self.errored_rules = set()
 
     @property
     def thorough(self):
@@ -57,6 +59,20 @@ class Check:
     # ---- recording -----------------------------------------------------------------
     def rule(self, rid, text):
         self.rules[rid] = text
+
+    def guard(self, fn, *args):
+        """Run one rule function; an AnalysisError inside it is recorded (exit 2 unless another rule reports a
+        violation, which is then not masked)."""
+        before = {i.rule for i in self.instances}
+        try:
+            fn(*args)
+        except AnalysisError as e:
+            self.errors.append(f"{fn.__name__}: {e}")
+            self.errored_rules.add(fn.__name__)
+        except Exception as e:  # an extractor tripping on an unexpected shape is an analysis error of that rule only
+            import traceback
+            self.errors.append(f"{fn.__name__}: internal {type(e).__name__}: {e} [{traceback.format_exc().splitlines()[-3].strip()}]")
+            self.errored_rules.add(fn.__name__)
 
     def inst(self, rule, key, ok, what, where="", detail=None, nontrivial=True, obligation=False):
         """Record one rule instance.  `key` must be stable under refactoring (no line numbers)."""
@@ -90,12 +106,12 @@ class Check:
         return [k for k in data.get("known", []) if k["property"] == self.prop]
 
     def finish(self):
-        if not self.only:
+        if not self.only and not self.errors:
             for rule, n in self.floors:
                 c = self.count(rule)
                 if c < n:
-                    raise AnalysisError(f"rule {rule} matched {c} instances, floor confirmed by hand is {n} "
-                                        f"(a rule that matches nothing passes vacuously)")
+                    self.errors.append(f"rule {rule} matched {c} instances, floor confirmed by hand is {n} "
+                                       f"(a rule that matches nothing passes vacuously)")
         known = self._known()
         failing = [i for i in self.instances if not i.ok]
         violations, known_hits = [], []
@@ -126,7 +142,11 @@ class Check:
             print(f"  FAIL rule={i.rule} instance={i.key} at {i.where}: {i.what}")
             print(f"VIOLATION property={self.prop} replay={path}")
         self._write_evidence(per_rule, violations, known_hits)
-        return 1 if violations else 0
+        for e in self.errors:
+            print(f"ANALYSIS-ERROR property={self.prop} {e}")
+        if violations:
+            return 1
+        return 2 if self.errors else 0
 
     def _write_evidence(self, per_rule, violations, known_hits):
         if self.only:
